@@ -57,7 +57,7 @@ Qed.
 Lemma cmd_agreeb_spec s1 t1 s2 t2 : cmd_agreeb s1 t1 s2 t2 = true <-> cmd_agree s1 t1 s2 t2.
 Proof.
   unfold cmd_agreeb, cmd_agree.
-  rewrite !andb_true_iff, str_eqb_eq, beh_eqb_eq, eqb_true_iff,
+  rewrite !andb_true_iff, str_eqb_eq, beh_eqb_eq, !eqb_true_iff,
     (list_eqb_eq shape_eqb shape_eqb_eq).
   tauto.
 Qed.
@@ -113,10 +113,26 @@ Proof.
   split; intros Hall x Hx; apply Hspec; apply Hall; exact Hx.
 Qed.
 
-Theorem snaps_okb_spec V : snaps_okb V = true <-> cmd_faithful V /\ Forall labels_unique V.
+Lemma comma_free_spec p : comma_free p = true <-> ~ In ch_comma p.
+Proof. unfold comma_free. rewrite negb_true_iff. apply mem_ch_false. Qed.
+
+Lemma outdefs_comma_freeb_spec s : outdefs_comma_freeb s = true <-> outdefs_comma_free s.
 Proof.
-  unfold snaps_okb. rewrite andb_true_iff, cmd_faithfulb_spec,
-    (forallb_Forall labels_uniqueb labels_unique labels_uniqueb_spec). tauto.
+  unfold outdefs_comma_freeb, outdefs_comma_free. rewrite forallb_forall. split.
+  - intros Hb t Hin Hnc o Ho. specialize (Hb _ Hin). cbn [node_comma_free] in Hb.
+    rewrite Hnc in Hb. cbn [negb orb] in Hb. rewrite forallb_forall in Hb.
+    apply comma_free_spec. apply Hb. exact Ho.
+  - intros Hall [t|l a] Hin; [|reflexivity]. cbn [node_comma_free].
+    destruct (td_nocache t) eqn:Hnc; [|reflexivity]. cbn [negb orb].
+    apply forallb_forall. intros o Ho. apply comma_free_spec. exact (Hall t Hin Hnc o Ho).
+Qed.
+
+Theorem snaps_okb_spec V :
+  snaps_okb V = true <-> cmd_faithful V /\ Forall labels_unique V /\ Forall outdefs_comma_free V.
+Proof.
+  unfold snaps_okb. rewrite !andb_true_iff, cmd_faithfulb_spec,
+    (forallb_Forall labels_uniqueb labels_unique labels_uniqueb_spec),
+    (forallb_Forall outdefs_comma_freeb outdefs_comma_free outdefs_comma_freeb_spec). tauto.
 Qed.
 
 (* ================================================================== splitting at the last separator *)
@@ -127,6 +143,42 @@ Proof.
   assert (Eb : b = b').
   { rewrite <- (after_last_app c a b Hb), <- (after_last_app c a' b' Hb'), E. reflexivity. }
   subst b'. split; [|reflexivity]. apply (app_inv_tail (c :: b)). exact E.
+Qed.
+
+Lemma first_split_eq c (a b a' b' : str) :
+  ~ In c a -> ~ In c a' -> a ++ c :: b = a' ++ c :: b' -> a = a' /\ b = b'.
+Proof.
+  intros Ha Ha' E. pose proof (split_first_app c a b Ha) as S1. rewrite E in S1.
+  rewrite (split_first_app c a' b' Ha') in S1. inversion S1. auto.
+Qed.
+
+(* strings.Join *)
+Lemma join_in sep : forall (l : list str) x c, In x l -> In c x -> In c (join sep l).
+Proof.
+  induction l as [|y l IH]; intros x c Hx Hc; [destruct Hx|].
+  destruct l as [|z l].
+  - destruct Hx as [->|[]]. exact Hc.
+  - change (join sep (y :: z :: l)) with (y ++ sep ++ join sep (z :: l)).
+    destruct Hx as [->|Hx].
+    + apply in_or_app. left. exact Hc.
+    + apply in_or_app. right. apply in_or_app. right. exact (IH x c Hx Hc).
+Qed.
+
+(* comma-free strings joined with ',' decode uniquely (the number of strings being known) *)
+Lemma join_comma_inj : forall l l' : list str, length l = length l' ->
+  (forall x, In x l -> ~ In ch_comma x) -> (forall x, In x l' -> ~ In ch_comma x) ->
+  join comma l = join comma l' -> l = l'.
+Proof.
+  induction l as [|x l IH]; intros [|y l'] Hlen Hl Hl' E; try discriminate Hlen; [reflexivity|].
+  destruct l as [|x2 l]; destruct l' as [|y2 l']; try discriminate Hlen.
+  - cbn [join] in E. subst. reflexivity.
+  - change (x ++ ch_comma :: join comma (x2 :: l) = y ++ ch_comma :: join comma (y2 :: l')) in E.
+    apply first_split_eq in E; [|apply Hl; left; reflexivity | apply Hl'; left; reflexivity].
+    destruct E as [-> E]. f_equal. apply IH.
+    + cbn [length] in Hlen |- *. lia.
+    + intros z Hz. apply Hl. right. exact Hz.
+    + intros z Hz. apply Hl'. right. exact Hz.
+    + exact E.
 Qed.
 
 (* print_label decodes for names without ':' (validateName rejects ':') *)
@@ -169,6 +221,8 @@ Lemma H_no_eq x : ~ In ch_eq (H x).
 Proof. apply H_not_hex. reflexivity. Qed.
 Lemma H_no_bar x : ~ In "|"%char (H x).
 Proof. apply H_not_hex. reflexivity. Qed.
+Lemma H_no_comma x : ~ In ch_comma (H x).
+Proof. apply H_not_hex. reflexivity. Qed.
 
 (* a change key is hex digits and at most one '_' *)
 Lemma key_no_eq fs st : ~ In ch_eq (change_key H fs st).
@@ -206,6 +260,43 @@ Proof.
   rewrite En, En' in E. apply concat_digests_inj in E.
   - subst n'. eapply perm_trans; [exact Pn | apply Permutation_sym; exact Pn'].
   - rewrite <- (Permutation_length Pn), <- (Permutation_length Pn'). exact Hlen.
+Qed.
+
+(* ------------------------------------------------------------------ the no-cache output hash decodes *)
+(* the no-cache output hash determines the multiset of its "<definition>=<digest>" items, provided no
+   item contains the separator ',' ([nocache_hash_needs_comma_free] below: the proviso is needed) *)
+Lemma nocache_hash_inj (l l' : list (str * str)) : length l = length l' ->
+  (forall e, In e l -> ~ In ch_comma (nocache_item e)) ->
+  (forall e, In e l' -> ~ In ch_comma (nocache_item e)) ->
+  nocache_output_hash H l = nocache_output_hash H l' ->
+  Permutation (map nocache_item l) (map nocache_item l').
+Proof.
+  intros Hlen Hc Hc' E. unfold nocache_output_hash in E. apply H_inj in E.
+  apply join_comma_inj in E.
+  - apply sort_strs_eq_perm. exact E.
+  - rewrite (Permutation_length (sort_strs_perm (map nocache_item l))),
+      (Permutation_length (sort_strs_perm (map nocache_item l'))), !map_length. exact Hlen.
+  - intros x Hx. apply (Permutation_in _ (sort_strs_perm _)) in Hx. apply in_map_iff in Hx.
+    destruct Hx as (e & <- & He). apply Hc. exact He.
+  - intros x Hx. apply (Permutation_in _ (sort_strs_perm _)) in Hx. apply in_map_iff in Hx.
+    destruct Hx as (e & <- & He). apply Hc'. exact He.
+Qed.
+
+(* a no-cache output hash (digest of a text with a '=' in it) is never the output hash of a cacheable
+   target with outputs (digest of hex digits): a dependency whose no-cache tag differs between two
+   snapshots contributes differently *)
+Lemma nocache_hash_not_output_hash (l : list (str * str)) (m : list str) : l <> [] -> m <> [] ->
+  nocache_output_hash H l <> output_hash H m.
+Proof.
+  intros Hl Hm E. unfold nocache_output_hash, output_hash in E.
+  destruct m as [|a m]; [congruence|]. destruct l as [|e l]; [congruence|]. apply H_inj in E.
+  assert (Hin : In ch_eq (join comma (sort_strs (map nocache_item (e :: l))))).
+  { apply (join_in comma _ (nocache_item e)).
+    - apply (Permutation_in _ (Permutation_sym (sort_strs_perm _))). left. reflexivity.
+    - unfold nocache_item. apply in_or_app. right. left. reflexivity. }
+  rewrite E in Hin. apply in_concat in Hin. destruct Hin as (x & Hx & Hc).
+  apply (Permutation_in _ (sort_strs_perm _)) in Hx. apply in_map_iff in Hx.
+  destruct Hx as (y & <- & _). exact (H_no_eq _ Hc).
 Qed.
 
 (* ================================================================== dependencies and their ideal data *)
@@ -325,7 +416,8 @@ Proof. unfold output_hash. destruct m as [|a m]; [intros [] | apply H_no_eq]. Qe
 Lemma entry_ohash_no_eq s i e : entry_ok s i e -> ~ In ch_eq (i_ohash (snd e)).
 Proof.
   intro He. destruct (entry_ohash s i e He) as (Eh & fs & st & Ek). rewrite Eh.
-  unfold ideal_ohash. destruct (td_outs (fst e)); [|apply output_hash_no_eq].
+  unfold ideal_ohash. destruct (td_nocache (fst e)); [apply H_no_eq|].
+  destruct (td_outs (fst e)); [|apply output_hash_no_eq].
   rewrite Ek. apply key_no_eq.
 Qed.
 
@@ -351,28 +443,85 @@ Proof.
   f_equal. apply IH; [exact Ef'|]. intros x y y' H1 H2. apply (Hall x); right; assumption.
 Qed.
 
+(* the items of a no-cache target's output hash are comma-free when its output paths are *)
+Lemma out_def_comma o : In ch_comma (out_def o) -> In ch_comma (o_path o).
+Proof.
+  unfold out_def. intro Hin. apply in_app_or in Hin. destruct Hin as [Hin|Hin]; [|exact Hin].
+  exfalso. destruct (o_kind o); cbn in Hin; intuition discriminate.
+Qed.
+
+Lemma item_comma_free o c : ~ In ch_comma (o_path o) -> ~ In ch_comma (nocache_item (out_pair H (o, c))).
+Proof.
+  intros Hp Hin. unfold nocache_item, out_pair in Hin. cbn [fst snd] in Hin.
+  apply in_app_or in Hin. destruct Hin as [Hin|[Hin|Hin]].
+  - exact (Hp (out_def_comma o Hin)).
+  - discriminate Hin.
+  - unfold out_digest in Hin. destruct (o_kind o); exact (H_no_comma _ Hin).
+Qed.
+
+Lemma out_digest_no_eq o c : ~ In ch_eq (out_digest H o c).
+Proof. unfold out_digest. destruct (o_kind o); apply H_no_eq. Qed.
+
+Lemma entry_items_comma_free s i e : outdefs_comma_free s -> entry_ok s i e ->
+  td_nocache (fst e) = true ->
+  forall x, In x (map (out_pair H) (i_outs (snd e))) -> ~ In ch_comma (nocache_item x).
+Proof.
+  intros Hcf He Hnc x Hx. apply in_map_iff in Hx. destruct Hx as ([o c] & <- & Hin).
+  apply item_comma_free. pose proof (entry_fst s i e He) as F.
+  destruct He as (j & _ & Hn & _). apply (Hcf (fst e)); [|exact Hnc|].
+  - apply (nth_error_In _ j). exact Hn.
+  - rewrite <- F. apply (in_map fst) in Hin. exact Hin.
+Qed.
+
 (* two dependencies with one label, one list of declared outputs and one output hash hold the
-   same bytes at every declared output *)
+   same bytes at every declared output (whether or not they are no-cache; a dependency that is
+   no-cache in one snapshot and cacheable in the other cannot have one output hash in both) *)
 Lemma dep_outs_eq s1 i1 e1 s2 i2 e2 :
+  outdefs_comma_free s1 -> outdefs_comma_free s2 ->
   entry_ok s1 i1 e1 -> entry_ok s2 i2 e2 -> shape_rel e1 e2 ->
   i_ohash (snd e1) = i_ohash (snd e2) -> i_outs (snd e1) = i_outs (snd e2).
 Proof.
-  intros He1 He2 [_ Eo] Eh.
+  intros C1 C2 He1 He2 [_ Eo] Eh.
   pose proof (entry_fst _ _ _ He1) as F1. pose proof (entry_fst _ _ _ He2) as F2.
   assert (Ef : map fst (i_outs (snd e1)) = map fst (i_outs (snd e2))) by congruence.
   apply pairs_eq; [exact Ef|]. intros o c c' Hin1 Hin2.
   destruct (entry_ohash _ _ _ He1) as [Eh1 _]. destruct (entry_ohash _ _ _ He2) as [Eh2 _].
   rewrite Eh1, Eh2 in Eh. unfold ideal_ohash in Eh. rewrite <- Eo in Eh.
+  assert (Hlen : length (i_outs (snd e1)) = length (i_outs (snd e2))).
+  { rewrite <- (map_length fst (i_outs (snd e1))), Ef, map_length. reflexivity. }
+  assert (Hne1 : i_outs (snd e1) <> []) by (intro En; rewrite En in Hin1; destruct Hin1).
+  assert (Hne2 : i_outs (snd e2) <> []) by (intro En; rewrite En in Hin2; destruct Hin2).
   destruct (td_outs (fst e1)) as [|o0 outs] eqn:Eouts.
-  { rewrite F1 in Ef. destruct (i_outs (snd e1)); [destruct Hin1 | discriminate F1]. }
-  apply output_hash_inj in Eh.
-  - assert (Hs : In (ser_entry H (o, c)) (map (ser_entry H) (i_outs (snd e2)))).
-    { apply (Permutation_in _ Eh). apply (in_map (ser_entry H)) in Hin1. exact Hin1. }
-    apply in_map_iff in Hs. destruct Hs as ([o'' c''] & Es & Hin'').
-    apply ser_entry_inj in Es. destruct Es as [-> Ed]. apply (out_digest_inj H H_inj) in Ed. subst c''.
-    exact (entry_fun _ _ _ _ _ _ He2 Hin'' Hin2).
-  - rewrite !map_length. rewrite <- (map_length fst (i_outs (snd e1))), Ef, map_length. reflexivity.
-  - intro En. destruct (i_outs (snd e1)); [destruct Hin1 | discriminate En].
+  { destruct (i_outs (snd e1)); [destruct Hin1 | discriminate F1]. }
+  destruct (td_nocache (fst e1)) eqn:N1; destruct (td_nocache (fst e2)) eqn:N2.
+  - apply nocache_hash_inj in Eh.
+    + assert (Hs : In (nocache_item (out_pair H (o, c)))
+                      (map nocache_item (map (out_pair H) (i_outs (snd e2))))).
+      { apply (Permutation_in _ Eh). apply in_map. apply (in_map (out_pair H)) in Hin1. exact Hin1. }
+      apply in_map_iff in Hs. destruct Hs as (x & Es & Hx).
+      apply in_map_iff in Hx. destruct Hx as ([o'' c''] & <- & Hin'').
+      unfold out_pair in Es. cbn [fst snd] in Es.
+      apply nocache_item_inj in Es; [|apply out_digest_no_eq|apply out_digest_no_eq].
+      destruct Es as [Eo'' Ed]. apply out_def_inj in Eo''. subst o''.
+      apply (out_digest_inj H H_inj) in Ed. subst c''.
+      exact (entry_fun _ _ _ _ _ _ He2 Hin'' Hin2).
+    + rewrite !map_length. exact Hlen.
+    + exact (entry_items_comma_free s1 i1 e1 C1 He1 N1).
+    + exact (entry_items_comma_free s2 i2 e2 C2 He2 N2).
+  - exfalso. apply nocache_hash_not_output_hash in Eh; [exact Eh| |].
+    + intro En. apply map_eq_nil in En. exact (Hne1 En).
+    + intro En. apply map_eq_nil in En. exact (Hne2 En).
+  - exfalso. symmetry in Eh. apply nocache_hash_not_output_hash in Eh; [exact Eh| |].
+    + intro En. apply map_eq_nil in En. exact (Hne2 En).
+    + intro En. apply map_eq_nil in En. exact (Hne1 En).
+  - apply output_hash_inj in Eh.
+    + assert (Hs : In (ser_entry H (o, c)) (map (ser_entry H) (i_outs (snd e2)))).
+      { apply (Permutation_in _ Eh). apply (in_map (ser_entry H)) in Hin1. exact Hin1. }
+      apply in_map_iff in Hs. destruct Hs as ([o'' c''] & Es & Hin'').
+      apply ser_entry_inj in Es. destruct Es as [-> Ed]. apply (out_digest_inj H H_inj) in Ed. subst c''.
+      exact (entry_fun _ _ _ _ _ _ He2 Hin'' Hin2).
+    + rewrite !map_length. exact Hlen.
+    + intro En. apply map_eq_nil in En. exact (Hne1 En).
 Qed.
 
 Lemma ideal_parts_of_label dt1 dt2 : td_label dt1 = td_label dt2 ->
@@ -402,6 +551,8 @@ Variables (s1 s2 : sources) (i1 i2 : nat) (deps1 deps2 : list (tdef * idata)).
 Hypothesis A1 : forall e, In e deps1 -> entry_ok s1 i1 e.
 Hypothesis A2 : forall e, In e deps2 -> entry_ok s2 i2 e.
 Hypothesis U2 : labels_unique s2.
+Hypothesis CF1 : outdefs_comma_free s1.
+Hypothesis CF2 : outdefs_comma_free s2.
 Hypothesis P : Permutation (map contrib deps1) (map contrib deps2).
 
 (* the dependencies at one position have the same output hash *)
@@ -427,7 +578,7 @@ Proof.
   intros l1 l2 F. induction F as [|e1 e2 l1 l2 Hr F IH]; intros I1 I2; [reflexivity|].
   assert (H1 : In e1 deps1) by (apply I1; left; reflexivity).
   assert (H2 : In e2 deps2) by (apply I2; left; reflexivity).
-  pose proof (dep_outs_eq s1 i1 e1 s2 i2 e2 (A1 e1 H1) (A2 e2 H2) Hr (ohash_pos e1 e2 H1 H2 Hr)) as Eo.
+  pose proof (dep_outs_eq s1 i1 e1 s2 i2 e2 CF1 CF2 (A1 e1 H1) (A2 e2 H2) Hr (ohash_pos e1 e2 H1 H2 Hr)) as Eo.
   destruct e1 as [dt1 dj1], e2 as [dt2 dj2]. cbn [fst snd] in Eo. cbn [ideal_reads].
   rewrite Eo, (ideal_parts_of_label dt1 dt2 (proj1 Hr)). f_equal.
   apply IH; intros x Hx; [apply I1 | apply I2]; right; exact Hx.
@@ -476,9 +627,9 @@ Qed.
 
 (* C09's injectivity + the structural guard give C01's abstract guard *)
 Theorem key_faithful_of_cmd_faithful V :
-  Forall labels_unique V -> cmd_faithful V -> key_faithful H V.
+  Forall labels_unique V -> Forall outdefs_comma_free V -> cmd_faithful V -> key_faithful H V.
 Proof.
-  intros HU HC s1 s2 j1 j2 k d2 Hs1 Hs2 Hk [t2 Ht2] Hd2 Hkeq.
+  intros HU HCF HC s1 s2 j1 j2 k d2 Hs1 Hs2 Hk [t2 Ht2] Hd2 Hkeq.
   unfold ideal_key_at in Hk. destruct (node_at s1 j1) as [[t1|l1 a1]|] eqn:Ht1; try discriminate Hk.
   unfold ideal_key_of in Hk.
   destruct (ideal_deps s1 (ideal_upto H s1 j1) (td_deps t1)) as [deps1|] eqn:Ed1; [|discriminate Hk].
@@ -491,13 +642,15 @@ Proof.
   cbn [state_of ts_label ts_cmd ts_ins ts_outs ts_deps] in El, Ec, Pi, Po, Pd, Ff.
   assert (Hin1 : In (NTarget t1) (s_nodes s1)) by (apply (nth_error_In _ j1); exact Ht1).
   assert (Hin2 : In (NTarget t2) (s_nodes s2)) by (apply (nth_error_In _ j2); exact Ht2).
-  destruct (HC s1 s2 t1 t2 Hs1 Hs2 Hin1 Hin2 El Ec) as (Esalt & Ebeh & Echk & Esh).
+  destruct (HC s1 s2 t1 t2 Hs1 Hs2 Hin1 Hin2 El Ec) as (Esalt & Ebeh & Echk & Esh & Enc).
   pose proof (ideal_deps_Forall2 _ _ _ _ Ed1) as F1. pose proof (ideal_deps_Forall2 _ _ _ _ Ed2) as F2.
   assert (Er : ideal_reads deps1 = ideal_reads deps2).
   { apply (reads_eq s1 s2 j1 j2 deps1 deps2).
     - exact (Forall2_entries s1 j1 _ _ F1).
     - exact (Forall2_entries s2 j2 _ _ F2).
     - rewrite Forall_forall in HU. apply HU. exact Hs2.
+    - rewrite Forall_forall in HCF. apply HCF. exact Hs1.
+    - rewrite Forall_forall in HCF. apply HCF. exact Hs2.
     - exact Pd.
     - apply (shape_Forall2 s1 _ s2 _ _ _ _ _ F1 F2). exact Esh. }
   assert (Hb1 : beh_ok t1 = true).
@@ -506,26 +659,28 @@ Proof.
       apply Permutation_length. exact Po. }
     unfold beh_ok in Eb2 |- *. rewrite Ebeh, Echk, Hlen. exact Eb2. }
   destruct (ideal_target_of_deps H H_inj s1 _ t1 deps1 Ed1 Hb1) as (d1 & Hd1 & _ & Eo1 & _).
-  exists d1. split.
+  exists d1. split; [|split].
   - rewrite (ideal_nth H s1 j1 _ Ht1). exact Hd1.
   - intros o c. rewrite Eo1, Eo2, !ideal_outs_in, Er,
       (content_eq s1 t1 s2 t2 o (ideal_reads deps2) El Esalt Pi Ff).
     split; intros [Hin ->]; (split; [|reflexivity]).
     + exact (out_defs_perm_in _ _ o Po Hin).
     + exact (out_defs_perm_in _ _ o (Permutation_sym Po) Hin).
+  - rewrite (ideal_target_nc H _ _ _ _ Hd1), (ideal_target_nc H _ _ _ _ Hd2). exact Enc.
 Qed.
 
 (* ================================================================== histories: no abstract guard left *)
 Theorem hist_ok_of_cmd_faithful ops :
-  Forall op_ok ops -> Forall labels_unique (snaps ops) -> cmd_faithful (snaps ops) -> hist_ok H ops.
+  Forall op_ok ops -> Forall labels_unique (snaps ops) -> Forall outdefs_comma_free (snaps ops) ->
+  cmd_faithful (snaps ops) -> hist_ok H ops.
 Proof.
-  intros Hops HU HC. split; [exact Hops|]. apply key_faithful_of_cmd_faithful; assumption.
+  intros Hops HU HCF HC. split; [exact Hops|]. apply key_faithful_of_cmd_faithful; assumption.
 Qed.
 
 Theorem hist_ok_of_structure ops :
   Forall op_ok ops -> snaps_okb (snaps ops) = true -> hist_ok H ops.
 Proof.
-  intros Hops Hb. apply snaps_okb_spec in Hb. destruct Hb as [HC HU].
+  intros Hops Hb. apply snaps_okb_spec in Hb. destruct Hb as (HC & HU & HCF).
   apply hist_ok_of_cmd_faithful; assumption.
 Qed.
 
@@ -750,7 +905,7 @@ Lemma forallb_eq {A} (f g : A -> bool) : (forall x, f x = g x) -> forall l, fora
 Proof. intros E l. induction l as [|x l IH]; [reflexivity|]. cbn [forallb]. rewrite E, IH. reflexivity. Qed.
 
 (* the masked check with every conjunct on is the guard *)
-Lemma cmd_faithfulb_m_full V : cmd_faithfulb_m (mkMask true true true true) V = cmd_faithfulb V.
+Lemma cmd_faithfulb_m_full V : cmd_faithfulb_m (mkMask true true true true true) V = cmd_faithfulb V.
 Proof.
   unfold cmd_faithfulb_m, cmd_faithfulb.
   apply forallb_eq. intro s1. apply forallb_eq. intro s2. apply forallb_eq. intro n1.
@@ -775,6 +930,8 @@ Ltac ops_ok_tac lem :=
   repeat (apply Forall_cons; [first [apply lem | split; reflexivity | exact I]|]); apply Forall_nil.
 Ltac uniq_tac :=
   repeat (apply Forall_cons; [apply labels_uniqueb_spec; vm_compute; reflexivity|]); apply Forall_nil.
+Ltac cf_tac :=
+  repeat (apply Forall_cons; [apply outdefs_comma_freeb_spec; vm_compute; reflexivity|]); apply Forall_nil.
 Ltac differs_tac :=
   unfold incremental_differs; cbv zeta;
   split; [reflexivity|]; split; [left; reflexivity|];
@@ -790,14 +947,14 @@ Qed.
 
 Theorem salt_needed :
   exists ops cfg roots ext' i t o,
-    Forall op_ok ops /\ Forall labels_unique (snaps ops) /\ cfg_ok cfg /\
-    cmd_faithfulb_m (mkMask false true true true) (snaps ops) = true /\
+    Forall op_ok ops /\ Forall labels_unique (snaps ops) /\ Forall outdefs_comma_free (snaps ops) /\
+    cfg_ok cfg /\ cmd_faithfulb_m (mkMask false true true true true) (snaps ops) = true /\
     incremental_differs pf_enc ops cfg roots ext' i t o /\ ~ key_faithful pf_enc (snaps ops).
 Proof.
   exists rf_ops, c_all, [0], [], 0, (rf_t (lit "2")), (mkOut OFile (lit "o")).
   assert (Hd : incremental_differs pf_enc rf_ops c_all [0] [] 0 (rf_t (lit "2")) (mkOut OFile (lit "o")))
     by differs_tac.
-  split; [exact rf_ops_ok|]. split; [uniq_tac|]. split; [exact c_ok_all|].
+  split; [exact rf_ops_ok|]. split; [uniq_tac|]. split; [cf_tac|]. split; [exact c_ok_all|].
   split; [vm_compute; reflexivity|]. split; [exact Hd|].
   exact (differs_not_faithful pf_enc pf_enc_inj _ _ _ _ _ _ _ rf_ops_ok c_ok_all Hd).
 Qed.
@@ -816,14 +973,14 @@ Proof. ops_ok_tac dn_src_ok. Qed.
 
 Theorem dep_shape_needed :
   exists ops cfg roots ext' i t o,
-    Forall op_ok ops /\ Forall labels_unique (snaps ops) /\ cfg_ok cfg /\
-    cmd_faithfulb_m (mkMask true true true false) (snaps ops) = true /\
+    Forall op_ok ops /\ Forall labels_unique (snaps ops) /\ Forall outdefs_comma_free (snaps ops) /\
+    cfg_ok cfg /\ cmd_faithfulb_m (mkMask true true true false true) (snaps ops) = true /\
     incremental_differs pf_enc ops cfg roots ext' i t o /\ ~ key_faithful pf_enc (snaps ops).
 Proof.
   exists dn_ops, c_all, [2], [], 2, (dn_t "c" "oc" [1; 0]), (mkOut OFile (lit "oc")).
   assert (Hd : incremental_differs pf_enc dn_ops c_all [2] [] 2 (dn_t "c" "oc" [1; 0]) (mkOut OFile (lit "oc")))
     by differs_tac.
-  split; [exact dn_ops_ok|]. split; [uniq_tac|]. split; [exact c_ok_all|].
+  split; [exact dn_ops_ok|]. split; [uniq_tac|]. split; [cf_tac|]. split; [exact c_ok_all|].
   split; [vm_compute; reflexivity|]. split; [exact Hd|].
   exact (differs_not_faithful pf_enc pf_enc_inj _ _ _ _ _ _ _ dn_ops_ok c_ok_all Hd).
 Qed.
@@ -843,18 +1000,18 @@ Definition bn_t (beh : behaviour) (chk : bool) : tdef :=
   mkTD (mkLabel (lit "p") (lit "t")) (lit "c") (lit "v") [] [mkOut OFile (lit "o")] [] [] false false beh chk.
 Definition bn_s (beh : behaviour) (chk : bool) : sources := mkSrc [NTarget (bn_t beh chk)] [].
 Definition bn_d (beh : behaviour) (chk : bool) : idata :=
-  match nth 0 (ideal pf_enc (bn_s beh chk)) None with Some d => d | None => mkI [] [] [] end.
+  match nth 0 (ideal pf_enc (bn_s beh chk)) None with Some d => d | None => mkI [] [] [] false end.
 
 Lemma bn_src_ok beh chk : src_ok (bn_s beh chk).
 Proof. split; [nodup_tac | reflexivity]. Qed.
 
 Theorem beh_needed :
-  exists V, Forall src_ok V /\ Forall labels_unique V /\
-    cmd_faithfulb_m (mkMask true false true true) V = true /\ ~ key_faithful pf_enc V.
+  exists V, Forall src_ok V /\ Forall labels_unique V /\ Forall outdefs_comma_free V /\
+    cmd_faithfulb_m (mkMask true false true true true) V = true /\ ~ key_faithful pf_enc V.
 Proof.
   exists [bn_s BFail false; bn_s BNormal false].
   split; [repeat (apply Forall_cons; [apply bn_src_ok|]); apply Forall_nil|].
-  split; [uniq_tac|]. split; [vm_compute; reflexivity|].
+  split; [uniq_tac|]. split; [cf_tac|]. split; [vm_compute; reflexivity|].
   apply (missing_not_faithful pf_enc _ (bn_s BFail false) (bn_s BNormal false) 0 0 (bn_d BNormal false)).
   - left. reflexivity.
   - right. left. reflexivity.
@@ -865,12 +1022,12 @@ Proof.
 Qed.
 
 Theorem check_needed :
-  exists V, Forall src_ok V /\ Forall labels_unique V /\
-    cmd_faithfulb_m (mkMask true true false true) V = true /\ ~ key_faithful pf_enc V.
+  exists V, Forall src_ok V /\ Forall labels_unique V /\ Forall outdefs_comma_free V /\
+    cmd_faithfulb_m (mkMask true true false true true) V = true /\ ~ key_faithful pf_enc V.
 Proof.
   exists [bn_s BBreakCheck true; bn_s BBreakCheck false].
   split; [repeat (apply Forall_cons; [apply bn_src_ok|]); apply Forall_nil|].
-  split; [uniq_tac|]. split; [vm_compute; reflexivity|].
+  split; [uniq_tac|]. split; [cf_tac|]. split; [vm_compute; reflexivity|].
   apply (missing_not_faithful pf_enc _ (bn_s BBreakCheck true) (bn_s BBreakCheck false) 0 0
            (bn_d BBreakCheck false)).
   - left. reflexivity.
@@ -906,7 +1063,8 @@ Proof. ops_ok_tac lp_src_ok. Qed.
 
 Theorem printed_labels_needed :
   exists ops cfg roots ext' i t o,
-    Forall op_ok ops /\ Forall (fun s => NoDup (map node_label (s_nodes s))) (snaps ops) /\ cfg_ok cfg /\
+    Forall op_ok ops /\ Forall (fun s => NoDup (map node_label (s_nodes s))) (snaps ops) /\
+    Forall outdefs_comma_free (snaps ops) /\ cfg_ok cfg /\
     cmd_faithfulb (snaps ops) = true /\
     incremental_differs pf_enc ops cfg roots ext' i t o /\ ~ key_faithful pf_enc (snaps ops).
 Proof.
@@ -919,7 +1077,110 @@ Proof.
       [cbn [lp_s s_nodes map node_label];
        repeat (apply NoDup_cons; [cbn [In]; intuition discriminate|]); apply NoDup_nil|]).
     apply Forall_nil. }
-  split; [exact c_ok_all|].
+  split; [cf_tac|]. split; [exact c_ok_all|].
   split; [vm_compute; reflexivity|]. split; [exact Hd|].
   exact (differs_not_faithful pf_enc pf_enc_inj _ _ _ _ _ _ _ lp_ops_ok c_ok_all Hd).
+Qed.
+
+(* ================================================================== no-cache targets *)
+(* --- the history of C01_nocache_chain_nonvacuous (a; b no-cache with a file and a directory output,
+   depending on a; c depending on b: build, edit a's input, build, build again) meets the structural guard *)
+Lemma nc_ops_ok : Forall op_ok nc_ops.
+Proof. ops_ok_tac nc_src_ok. Qed.
+
+Theorem keyfaith_nonvacuous_nocache :
+  exists ops cfg roots,
+    Forall op_ok ops /\ snaps_okb (snaps ops) = true /\ cfg_ok cfg /\
+    (exists s t, In s (snaps ops) /\ In (NTarget t) (s_nodes s) /\ td_nocache t = true /\
+                 td_outs t <> [] /\ td_deps t <> []) /\
+    let y := run_history pf_enc ops in
+    let r := build pf_enc cfg (sy_src y) roots (sy_world y) (sy_cache y) in
+    map br_status (sy_log y) = [[TExecuted; TExecuted; TExecuted]; [TExecuted; TExecuted; TExecuted]] /\
+    br_status r = [THit; TExecuted; THit] /\ br_ok r = true.
+Proof.
+  exists nc_ops, c_all, [2].
+  split; [exact nc_ops_ok|]. split; [vm_compute; reflexivity|]. split; [exact c_ok_all|].
+  split.
+  { exists (nc_s (lit "1")), nc_b. split; [left; reflexivity|]. split; [right; left; reflexivity|].
+    split; [reflexivity|]. split; intro E; discriminate E. }
+  vm_compute. auto.
+Qed.
+
+(* --- the no-cache tag: the key does not cover it.  t has no outputs and is no-cache in the first
+   snapshot, cacheable in the second; u depends on t.  The two snapshots give t one key, so [key_faithful]
+   fails.  What goes wrong in the build after the edit: t is served the OUTPUT-LESS record its no-cache
+   execution stored (nothing to restore, so the load succeeds) and carries the no-cache output hash where
+   the from-scratch build carries t's key: u is looked up (and here served) under a key that no
+   from-scratch build of any visited snapshot computes.  (The bytes still agree: t has no outputs.) *)
+Lemma flag_not_faithful (H : str -> str) V s1 s2 j1 j2 d1 d2 :
+  In s1 V -> In s2 V -> is_target s2 j2 -> nth j2 (ideal H s2) None = Some d2 ->
+  ideal_key_at H s1 j1 = Some (i_key d2) -> nth j1 (ideal H s1) None = Some d1 ->
+  i_nc d1 <> i_nc d2 -> ~ key_faithful H V.
+Proof.
+  intros H1 H2 Ht Hd2 Hk Hd1 Hne Hkf.
+  destruct (Hkf s1 s2 j1 j2 (i_key d2) d2 H1 H2 Hk Ht Hd2 eq_refl) as (d & Hd & _ & Hnc).
+  rewrite Hd1 in Hd. inversion Hd; subst d. exact (Hne Hnc).
+Qed.
+
+Definition nt_t (nc : bool) : tdef :=
+  mkTD (mkLabel (lit "p") (lit "t")) (lit "c") (lit "v") [] [] [] [] nc false BNormal false.
+Definition nt_u : tdef :=
+  mkTD (mkLabel (lit "p") (lit "u")) (lit "c") (lit "v") [] [mkOut OFile (lit "o")] [0] []
+       false false BNormal false.
+Definition nt_s (nc : bool) : sources := mkSrc [NTarget (nt_t nc); NTarget nt_u] [].
+Definition nt_ops : list op := [OpSources (nt_s true); OpBuild c_all [1]; OpSources (nt_s false)].
+Definition nt_d (nc : bool) : idata :=
+  match nth 0 (ideal pf_enc (nt_s nc)) None with Some d => d | None => mkI [] [] [] false end.
+
+Lemma nt_src_ok nc : src_ok (nt_s nc).
+Proof. split; [nodup_tac | reflexivity]. Qed.
+Lemma nt_ops_ok : Forall op_ok nt_ops.
+Proof. ops_ok_tac nt_src_ok. Qed.
+
+Theorem nocache_flag_needed :
+  exists ops cfg roots,
+    Forall op_ok ops /\ Forall labels_unique (snaps ops) /\ Forall outdefs_comma_free (snaps ops) /\
+    cfg_ok cfg /\ cmd_faithfulb_m (mkMask true true true true false) (snaps ops) = true /\
+    ~ key_faithful pf_enc (snaps ops) /\
+    let y := run_history pf_enc ops in
+    let r := build pf_enc cfg (sy_src y) roots (sy_world y) (sy_cache y) in
+    br_status r = [THit; THit] /\
+    rt_key (get_rt (build_prefix pf_enc cfg (sy_src y) roots (sy_world y) (sy_cache y) 2) 1) <>
+    option_map i_key (nth 1 (ideal pf_enc (sy_src y)) None).
+Proof.
+  exists nt_ops, c_all, [1].
+  split; [exact nt_ops_ok|]. split; [uniq_tac|]. split; [cf_tac|]. split; [exact c_ok_all|].
+  split; [vm_compute; reflexivity|].
+  split.
+  { apply (flag_not_faithful pf_enc _ (nt_s false) (nt_s true) 0 0 (nt_d false) (nt_d true)).
+    - right. left. reflexivity.
+    - left. reflexivity.
+    - eexists. reflexivity.
+    - vm_compute. reflexivity.
+    - vm_compute. reflexivity.
+    - vm_compute. reflexivity.
+    - vm_compute. intro E. discriminate E. }
+  cbv zeta. split; [vm_compute; reflexivity|]. vm_compute. intro E. discriminate E.
+Qed.
+
+(* --- commas: the decoding lemma [nocache_hash_inj] needs its proviso, for every digest function: the
+   definitions "file::a" and "file::a=0,file::a" with the digests 0, 1 resp. 1, 0 give one item text
+   "file::a=0,file::a=0,file::a=1".  (Inside Build.v this state cannot be reached: every command output
+   embeds its own output definition, so two outputs never exchange their digests; the guard
+   [outdefs_comma_free] is what the PROOF of the bridge needs, and it is stated for no-cache targets only.) *)
+Theorem nocache_hash_needs_comma_free :
+  exists l l' : list (str * str), length l = length l' /\
+    (forall e, In e (l ++ l') -> ~ In ch_eq (snd e) /\ ~ In ch_comma (snd e)) /\
+    ~ Permutation (map nocache_item l) (map nocache_item l') /\
+    forall H : str -> str, nocache_output_hash H l = nocache_output_hash H l'.
+Proof.
+  exists [(lit "file::a", lit "0"); (lit "file::a=0,file::a", lit "1")],
+         [(lit "file::a", lit "1"); (lit "file::a=0,file::a", lit "0")].
+  split; [reflexivity|]. split.
+  { intros e He. cbn [app In] in He.
+    destruct He as [<-|[<-|[<-|[<-|[]]]]]; vm_compute; split; intuition discriminate. }
+  split.
+  { intro P. apply (Permutation_in (lit "file::a=0")) in P; [|left; reflexivity].
+    vm_compute in P. intuition discriminate. }
+  intro H. unfold nocache_output_hash. f_equal.
 Qed.
